@@ -9,7 +9,15 @@ spec -> code: every behaviour of Slicer.tla is replayed into the real code and c
   * directory chunking through the chunk-torch-spect-data-dir command run in-process (--num-workers 0) on
     temporary directories built from the spec's directories; its output is re-read, projected to the abstract
     directory and compared with the spec's ChunkDir (which TLC has shown to be well-formed and to equal the
-    source restricted to each window).
+    source restricted to each window).  The comparison is per output FILE NAME: the spec's WriteFile action
+    builds the map name -> chunk for every abstract --format-utt (names carrying start/end, the index, both, or
+    only the start), TLC checks (FilesOK) that a name carrying the window determines the chunk, and a file may
+    hold any one of the chunks formatted to its name.  Transcripts that are not monotone in time, repeat
+    segments or hold many tokens are part of the universe; the command runs with and without --quiet;
+  * transcripts of 17..100 tokens: TLC checks (TokConcat) that token chunking distributes over concatenation
+    of token lists and commutes with renaming the tokens, so the chunk of a concatenation of exported cases
+    (one slice) is the concatenation of their exported chunks; such rows go through the functional, the
+    module and the TorchScript-compiled module.
 Failures are classified so that each known defect has its own signature (site + kind)."""
 import os
 import random
@@ -20,7 +28,7 @@ import torch
 from .. import SPECS, tlc
 from ..harness import MachineryError, main
 from . import _ps
-from ._slicerdir import LABEL, _classify_tokens, eval_dir_case, eval_dir_cases
+from ._slicerdir import FORMATS, LABEL, _classify_tokens, eval_dir_case, eval_dir_cases, token_kind
 
 PROP = "C10"
 MOD = os.path.join(SPECS, "SlicerMC.tla")
@@ -33,7 +41,8 @@ CFGS = {
     "thorough": ["fixed_thorough", "ali_thorough", "ali3_thorough", "ref_thorough", "ref3_thorough",
                  "tok_thorough", "tok3_thorough", "dir_thorough"],
 }
-ACTION_OF = {"fixed": "Slide", "ali": "Frame", "ref": "Segment", "tok": "Token", "dir": "ChunkUtt"}
+ACTION_OF = {"fixed": ["Slide"], "ali": ["Frame"], "ref": ["Segment"], "tok": ["Token"], "dir": ["ChunkUtt", "WriteFile"]}
+LONG_MIN, LONG_MAX = 17, 100  # token counts of the harness-built transcripts (TokConcat)
 
 
 def _left(wt):
@@ -197,6 +206,24 @@ def _judge_slice(ctx, case, depth=0):
 
 
 # ------------------------------------------------------------------ chunk_token_sequences_by_slices
+_SCRIPTED = {}
+
+
+def _scripted_chunker(partial, retain):
+    """the TorchScript-compiled module (compiled once per option pair)"""
+    from pydrobert.torch import modules as M
+
+    key = (bool(partial), bool(retain))
+    if key not in _SCRIPTED:
+        _SCRIPTED[key] = _ps.quiet(torch.jit.script, M.ChunkTokenSequencesBySlices(*key))
+    return _SCRIPTED[key]
+
+
+def _which_module(rng):
+    x = rng.random()
+    return "scripted" if x < 0.1 else x < 0.3
+
+
 def eval_tok_batch(case):
     from pydrobert.torch import functional as F, modules as M
 
@@ -210,12 +237,14 @@ def eval_tok_batch(case):
                 tk = r["seq"][i]
             else:  # garbage tokens with known segments
                 s = g.randrange(0, 4)
-                tk = [90 + i, s, s + g.randrange(0, 3)]
+                tk = [case.get("garbage_base", 90) + i, s, s + g.randrange(0, 3)]
             refs[n, i, 0], refs[n, i, 1], refs[n, i, 2] = tk
     slices = torch.tensor([[r["a"], r["b"]] for r in rows], dtype=torch.long).view(N, 2)
     ref_lens = None if case["inlen_omitted"] else torch.tensor([r["inlen"] for r in rows], dtype=torch.long)
     try:
-        if case["module"]:
+        if case["module"] == "scripted":
+            chunked, clens = _ps.quiet(_scripted_chunker(case["partial"], case["retain"]), refs, slices, ref_lens)
+        elif case["module"]:
             chunked, clens = _ps.quiet(M.ChunkTokenSequencesBySlices(case["partial"], case["retain"]),
                                        refs, slices, ref_lens)
         else:
@@ -237,7 +266,8 @@ def eval_tok_batch(case):
             if not r["determined"]:
                 informational += 1  # partial overlap with an empty segment / slice: not fixed by the statement
                 continue
-            fails.append(("tokens", "element %d (tokens %s, slice [%d, %d), partial=%s): kept %s, expected %s" % (
+            fails.append((token_kind([t[0] for t in got], [t[0] for t in exp]),
+                          "element %d (tokens %s, slice [%d, %d), partial=%s): kept %s, expected %s" % (
                 n, r["seq"], r["a"], r["b"], case["partial"], [t[0] for t in got], [t[0] for t in exp]), n))
             continue
         kind = _classify_tokens(got, exp, r["a"], case["retain"])
@@ -259,7 +289,7 @@ def _replay_tokens(ctx, recs, passes):
                 maxlen = max(len(r["seq"]) for r in batch)
                 case = dict(kind="tok", partial=partial, retain=retain, inlen_omitted=io,
                             R=maxlen if io else maxlen + ctx.rng.choice([0, 1, 2]),
-                            salt=ctx.rng.randrange(1 << 20), module=ctx.rng.random() < 0.25,
+                            salt=ctx.rng.randrange(1 << 20), module=_which_module(ctx.rng),
                             rows=[{k: r[k] for k in ("seq", "inlen", "a", "b", "tokens", "determined")} for r in batch])
                 fails, informational = eval_tok_batch(case)
                 ctx.case(n=len(batch))
@@ -270,8 +300,69 @@ def _replay_tokens(ctx, recs, passes):
                     ctx.violation(dict(site=SITE_T, kind=kind), detail, case)
 
 
+def _long_row(rng, pieces, a, b, target):
+    """one transcript of about `target` tokens: the concatenation of exported token lists (the part within
+    ref_lens), piece k renamed by + 100 k; its chunk is the concatenation of the pieces' exported chunks renamed
+    alike (Slicer.tla TokConcat: ChunkTokens distributes over concatenation and commutes with renaming)"""
+    seq, tokens, determined, k = [], [], True, 0
+    while len(seq) < target:
+        r = rng.choice(pieces)
+        n = len(r["seq"]) if r["inlen"] == OM else r["inlen"]
+        if n == 0 or len(seq) + n > LONG_MAX:
+            if n and len(seq) >= LONG_MIN:
+                break
+            continue
+        k += 1
+        seq += [[t[0] + 100 * k, t[1], t[2]] for t in r["seq"][:n]]
+        tokens += [[t[0] + 100 * k, t[1], t[2]] for t in r["tokens"]]
+        determined = determined and r["determined"]
+    return dict(seq=seq, inlen=len(seq), a=a, b=b, tokens=tokens, determined=determined)
+
+
+def _replay_long_tokens(ctx, recs, nbatches):
+    """transcripts of LONG_MIN..LONG_MAX tokens built from the exported cases (see _long_row)"""
+    groups = {}
+    for r in recs:
+        if r["partial"] and not r["determined"]:
+            continue  # keep the long rows inside what the statement fixes
+        groups.setdefault((r["partial"], r["retain"]), {}).setdefault((r["a"], r["b"]), []).append(r)
+    for key in sorted(groups):
+        partial, retain = key
+        slices = sorted(groups[key])
+        # slices that keep something from some list; pieces are drawn with a bias towards lists with kept tokens
+        rich = {ab: [r for r in groups[key][ab] if r["tokens"]] for ab in slices}
+        slices = [ab for ab in slices if rich[ab]]
+        for i in range(nbatches):
+            rows = []
+            for _ in range(ctx.rng.choice([1, 2, 3, 4])):
+                ab = ctx.rng.choice(slices)
+                pool = rich[ab] * 3 + groups[key][ab]
+                rows.append(_long_row(ctx.rng, pool, ab[0], ab[1], ctx.rng.randrange(LONG_MIN, LONG_MAX + 1)))
+            maxlen = max(len(r["seq"]) for r in rows)
+            io = len({len(r["seq"]) for r in rows}) == 1 and ctx.rng.random() < 0.5
+            case = dict(kind="tok", partial=partial, retain=retain, inlen_omitted=io, long=True, garbage_base=900000,
+                        R=maxlen if io else maxlen + ctx.rng.choice([0, 1, 3]), salt=ctx.rng.randrange(1 << 20),
+                        module=(False, True, "scripted")[i % 3], rows=rows)
+            if io:
+                for r in rows:
+                    r["inlen"] = OM
+            fails, informational = eval_tok_batch(case)
+            ctx.count("long_token_rows", len(rows))
+            for r in rows:
+                ctx.case(key=("tok-long", r["seq"], r["a"], r["b"], partial, retain),
+                         nontrivial=len(r["tokens"]) >= 2 and len(r["seq"]) >= LONG_MIN)
+            ctx.traces += len(rows)
+            _ps.need(not informational, "long token rows must be determined")
+            for kind, detail, n in fails:
+                ctx.violation(dict(site=SITE_T, kind=kind, form=_form(case)), detail, case)
+
+
+def _form(case):
+    return "scripted" if case["module"] == "scripted" else ("module" if case["module"] else "functional")
+
+
 # ------------------------------------------------------------------ chunk-torch-spect-data-dir
-def _dir_case(ctx, r, k):
+def _dir_case(ctx, r, k, force_default=False):
     src = []
     for u in _ps.seqlist(r["src"]):
         src.append(dict(T=u["T"], ali=_ps.seqlist(u["ali"]), ref=[list(t) for t in _ps.seqlist(u["ref"])]))
@@ -280,9 +371,21 @@ def _dir_case(ctx, r, k):
         chunks.append(dict(utt=ch["utt"], idx=ch["idx"], s=ch["s"], e=ch["e"], feat=_ps.seqlist(ch["feat"]),
                            ali=_ps.seqlist(ch["ali"]), ref=[list(t) for t in _ps.seqlist(ch["ref"])]))
     pre, suf = ctx.rng.choice([("", ".pt"), ("", ".pt"), ("pre_", ".bin")])
-    return dict(kind="dir", utts=_ps.seqlist(r["utts"]), hasAli=r["hasAli"], hasRef=r["hasRef"], src=src,
-                opt=r["opt"], chunks=chunks, prefix=pre, suffix=suf,
-                fmt=ctx.rng.choice([None, None, "{utt_id}@{idx}@{start}@{end}"]), salt=k)
+    files = {f: [dict(name=list(g["name"]), wrote=g["wrote"], any=_ps.seqlist(g["any"]), same=g["same"])
+                 for g in _ps.seqlist(gs)] for f, gs in r["files"].items()}
+    _ps.need(set(files) == set(FORMATS), "Slicer exported file groups for %s" % sorted(files))
+    base = dict(kind="dir", utts=_ps.seqlist(r["utts"]), hasAli=r["hasAli"], hasRef=r["hasRef"], src=src,
+                opt=r["opt"], chunks=chunks, prefix=pre, suffix=suf)
+    fk = ctx.rng.choice(["se", "se", "se", "ise", "i", "s"])
+    first = dict(base, fmt_kind=fk, fmt=ctx.rng.choice(FORMATS[fk]), quiet=ctx.rng.random() < 0.5, files=files[fk])
+    out = [first]
+    if force_default or (len(files["se"]) < len(chunks) and ctx.rng.random() < 0.6):
+        # some windows format to one name under the default format: mostly run that, loudly (the command's warning path)
+        first.update(fmt_kind="se", fmt=None, quiet=False, files=files["se"])
+    elif any(not g["same"] for g in files["s"]) and fk != "s" and k % 3 == 0:
+        # windows sharing a start but not an end: also the format under which their (different) chunks clash
+        out.append(dict(base, fmt_kind="s", fmt=FORMATS["s"][0], quiet=ctx.rng.random() < 0.5, files=files["s"]))
+    return out
 
 
 def _replay_dirs(ctx, recs):
@@ -291,7 +394,9 @@ def _replay_dirs(ctx, recs):
         if not r["legal"]:
             skipped += 1  # a window needs more reflect padding than the utterance is long: documented exception
             continue
-        cases.append(_dir_case(ctx, r, k))
+        for case in _dir_case(ctx, r, k):
+            case["salt"] = len(cases)
+            cases.append(case)
     ctx.count("dir_cases_documented_exception_not_replayed", skipped)
     nproc = max(1, min(8, (os.cpu_count() or 2) // 2))
     try:
@@ -306,6 +411,12 @@ def _replay_dirs(ctx, recs):
                  sample=dict(directory=dict(utts=case["utts"], options=o, chunks=[(c["utt"], c["s"], c["e"]) for c in case["chunks"]]))
                  if k % 977 == 5 else None)
         ctx.traces += 1
+        ctx.count("dir_runs_quiet" if case["quiet"] else "dir_runs_not_quiet")
+        ctx.count("dir_runs_format_" + case["fmt_kind"])
+        if len(case["files"]) < nchunks:
+            ctx.count("dir_runs_with_name_clash")
+            if any(not g["same"] for g in case["files"]):
+                ctx.count("dir_runs_with_name_clash_of_different_chunks")
         if info["validate_disagrees"]:
             ctx.count("informational_validator_disagrees", info["validate_disagrees"])
         for kind, detail in fails:
@@ -326,7 +437,34 @@ def _selftest(ctx, by_kind):
                 module=False, rows=[bad])
     fails, _ = eval_tok_batch(case)
     _ps.need(any(k == "boundary" for k, _, _ in fails), "self-test: corrupted token boundaries were not noticed")
-    ctx.extra["selftest"] = "corrupted window and token expectations rejected"
+    # a directory whose windows clash and are out of name order: exchanging the expected contents of two files
+    # must be noticed, and a long transcript with two expected tokens exchanged must be reported as an order failure
+    r = next(r for r in by_kind["dir"] if r["legal"] and r["opt"]["policy"] == "ref" and r["opt"]["lobe"] == 0
+             and r["opt"]["padmode"] == "none" and len(_ps.seqlist(r["files"]["se"])) < len(_ps.seqlist(r["chunks"])))
+    case = _dir_case(ctx, r, 0, force_default=True)[0]
+    case.update(salt=999999)
+    i, j = next((i, j) for i in range(len(case["chunks"])) for j in range(len(case["chunks"]))
+                if case["chunks"][i]["feat"] != case["chunks"][j]["feat"] and case["chunks"][i]["utt"] == case["chunks"][j]["utt"])
+    for k in ("feat", "ali", "ref"):
+        case["chunks"][i][k], case["chunks"][j][k] = case["chunks"][j][k], case["chunks"][i][k]
+    case["chunks"] = [dict(ch) for ch in case["chunks"]]
+    try:
+        fails, _ = eval_dir_case(case, ctx.workdir)
+    except RuntimeError:
+        fails = [("binding", "")]  # the exchanged contents contradict the exported 'same' flags: also a rejection
+    _ps.need(fails, "self-test: exchanged chunk files were not noticed")
+    rows = None
+    for r in by_kind["tok"]:
+        if r["retain"] and not r["partial"] and len(r["tokens"]) >= 2:
+            rows = [_long_row(random.Random(3), [r], r["a"], r["b"], 20)]
+            break
+    _ps.need(rows, "self-test: no token case with two kept tokens")
+    rows[0]["tokens"][0], rows[0]["tokens"][1] = rows[0]["tokens"][1], rows[0]["tokens"][0]
+    case = dict(kind="tok", partial=False, retain=True, inlen_omitted=False, R=len(rows[0]["seq"]), salt=1,
+                module="scripted", garbage_base=900000, rows=rows)
+    fails, _ = eval_tok_batch(case)
+    _ps.need(any(k == "token_order" for k, _, _ in fails), "self-test: exchanged long-transcript tokens were not noticed")
+    ctx.extra["selftest"] = "corrupted window, token, chunk-file and token-order expectations rejected"
 
 
 # ------------------------------------------------------------------ entry points
@@ -347,9 +485,14 @@ def run(ctx):
     ctx.rule = ("every behaviour of Slicer.tla -- fixed: lengths x 3 window types x valid_only x lobe sizes x in_lens "
                 "given/omitted; ali: every label sequence over 2 (3) labels up to the bound x the same grid; ref: every list "
                 "of segments with boundaries from a small set (missing = -1, empty, inverted) x in_lens x other_lens given / "
-                "omitted x grid; tok: every token list x slice x partial x retain x ref_lens; dir: every listed directory x "
+                "omitted x grid; tok: every token list x slice x partial x retain x ref_lens; dir: every listed directory "
+                "(transcripts that are hierarchical / out of time order / repeat segments / hold 19 tokens included) x "
                 "policy x window type x lobe x pad mode x partial x retain -- replayed in seeded ragged batches with garbage "
-                "beyond the lengths (directories: one command run each).  Non-trivial = at least one window / token / chunk "
+                "beyond the lengths (directories: one command run each under a seeded --format-utt and --quiet or not, mostly "
+                "the default format with warnings on where window names clash; files compared per name with the "
+                "spec's map name -> allowed chunks).  Transcripts of 17..100 tokens are concatenations of exported token "
+                "cases (TLC-checked TokConcat lemma), through the functional, the module and the scripted module.  "
+                "Non-trivial = at least one window / token / chunk "
                 "is expected and (windows) at least one was dropped or extended by a lobe, distinct by case")
     ctx.assumptions += [
         "fixed policy, not valid_only: windows are NOT clamped to the sequence (the docstring's examples and sizes; its "
@@ -363,6 +506,13 @@ def run(ctx):
         "inverted token segments (end < start) are outside the universe (not well-formed data)",
         "directory chunking: well-formedness of the output is claimed for partial=False, retain=False only; runs whose "
         "windows need more reflect padding than the utterance is long raise as documented and are not replayed",
+        "directory chunking: when several windows of an utterance format to one name the file may hold any one of "
+        "their chunks (the command only warns; nothing documents which survives); with a format that carries start "
+        "and end the chunks are equal (TLC: FilesOK), so the file named after a window holds the source restricted "
+        "to that window.  The warning itself is not judged",
+        "long transcripts: ChunkTokens of a concatenation (one slice) = concatenation of the ChunkTokens of the parts, "
+        "token ids carried along (TLC: TokConcat, every cut of every list of the tok universe); the long rows only "
+        "concatenate cases the statement determines",
     ]
     jobs = [(name, MOD, os.path.join(SPECS, "Slicer_%s.cfg" % name), dict(workers=8, timeout=2400)) for name in CFGS[ctx.tier]]
     results = _ps.run_tlc_jobs(jobs)
@@ -371,7 +521,7 @@ def run(ctx):
         res = results[name]
         tlc.require_ok(res, "Slicer/" + name)
         kind = name.split("_")[0].rstrip("3")
-        tlc.require_covered(res, ["Init", ACTION_OF[kind]], "Slicer/" + name)
+        tlc.require_covered(res, ["Init"] + ACTION_OF[kind], "Slicer/" + name)
         ctx.add_tlc("Slicer/" + name, res)
         _ps.need(res.records, "Slicer/%s exported no behaviours" % name)
         by_kind.setdefault(kind, []).extend(_normalise(r) for r in res.records)
@@ -398,6 +548,7 @@ def run(ctx):
     timing["ref"] = round(time.time() - t0, 1)
     t0 = time.time()
     _replay_tokens(ctx, by_kind["tok"], passes)
+    _replay_long_tokens(ctx, by_kind["tok"], 60 if ctx.quick else 240)
     timing["tok"] = round(time.time() - t0, 1)
     t0 = time.time()
     _replay_dirs(ctx, by_kind["dir"])
@@ -414,7 +565,10 @@ def replay(ctx, case):
         fails, _ = eval_tok_batch(case)
         site = SITE_T
     else:
-        fails, _ = eval_dir_case(case, ctx.workdir)
+        try:
+            fails, _ = eval_dir_case(case, ctx.workdir)
+        except RuntimeError as ex:
+            raise MachineryError(str(ex))
         site = SITE_D
     for f in fails:
         print("replay %s: %s: %s" % (site, f[0], f[1]))
